@@ -63,7 +63,7 @@ func tappBarrier(s *Sim, wl *Workload) {
 		return
 	}
 	ko := util.NewKeyObj("tapp_", NS, wl.Name, wl.Name+"-0", "")
-	deadline := time.Now().Add(10 * time.Second)
+	deadline := time.Now().Add(180 * time.Second) // watchdog only: a real informer goroutine has to be scheduled, which can take long on a loaded machine
 	for {
 		exist, rep, err := s.W.Plugin.VerifAppReplicas(ko)
 		if err == nil && exist == wl.Exists && (!wl.Exists || int(rep) == wl.Replicas) {
